@@ -408,7 +408,34 @@ pub fn miller_case(a: &N, b: &N) -> Result<u32, Bad> {
     Ok(k + 2)
 }
 
+/// the base of the tower: internal Fq helpers that the public API does not expose (double, triple, squared,
+/// div2) on every member of FP(q), including every special value as a STORED (Montgomery) value
+pub fn fq_internal_case(a: &N) -> Result<u32, Bad> {
+    let p = q();
+    let ia = h::fq_in(fq(a));
+    let out = |x: h::InnerFq| crate::api::fqv(&h::fq_out(x));
+    let two_inv = refmodel::invm(&n(2), p).unwrap();
+    for (nm, got, want) in [
+        ("double", lib("Fq double", || out(ia.double()))?, (a + a) % p),
+        ("triple", lib("Fq triple", || out(ia.triple()))?, (a * n(3)) % p),
+        ("squared", lib("Fq squared", || out(ia.squared()))?, (a * a) % p),
+        ("div2", lib("Fq div2", || out(ia.div2()))?, mulm(a, &two_inv, p)),
+    ] {
+        ensure!(got == want, "wrong-value", "internal Fq {}({:x}) = {:x}, expected {:x}", nm, a, got, want);
+    }
+    // results must be fully reduced as stored values: they compare equal to freshly built elements
+    for (nm, x, want) in [("double", ia.double(), (a + a) % p), ("triple", ia.triple(), (a * n(3)) % p), ("div2", ia.div2(), mulm(a, &two_inv, p))] {
+        ensure!(h::fq_out(x) == fq(&want), "non-canonical", "internal Fq {}({:x}) is not fully reduced (it encodes the right value but != a fresh element)", nm, a);
+    }
+    Ok(7)
+}
 pub fn run(run: &Run) {
+    let fpa = mccore::alpha::fp_alpha(q(), run.tier, run.seed).all;
+    run.grid(
+        Spec { name: "c17.fq.internal-helpers", n: fpa.len() as u64, classes: &[], required: &[] },
+        |i| Ok(Tally::new(fq_internal_case(&fpa[i as usize])?, fpa[i as usize] > n(1), 0)),
+        |i| json!({"op": "c17.fq.internal", "a": jn(&fpa[i as usize])}),
+    );
     let a4 = fq4_alpha(run.tier, run.seed);
     let n4 = a4.len() as u64;
     run.note("alphabet", json!({"FQ4": n4}));
@@ -511,6 +538,7 @@ pub fn c12_direct_replay(c: &Value) -> Result<(), Bad> {
 
 pub fn replay(c: &Value) -> Result<(), Bad> {
     match gs(c, "op").as_str() {
+        "c17.fq.internal" => fq_internal_case(&(gn(c, "a") % q())).map(|_| ()),
         "c17.fq4.pair" => fq4_pair(&gf(&c["a"]), &gf(&c["b"])).map(|_| ()),
         "c17.fq4.unary" => fq4_unary(&gf(&c["a"])).map(|_| ()),
         "c17.fq12.pair" => {
